@@ -129,7 +129,17 @@ class Gen:
             ops.append(Op("m", list(corners[0])))
             for c in corners[1:]:
                 ops.append(Op("l", list(c)))
-            how = rng.choice(["h", "l", "lh", "open", "open5"])
+            how = rng.choice(["h", "l", "lh", "open", "open5", "slant", "slant"])
+            if how == "slant":   # three axis-aligned sides, a slanted closing side: a closed quadrilateral, NOT a rectangle
+                cs = [list(c) for c in corners]
+                axis = 0 if corners[1][1] == corners[0][1] else 1   # x-first ordering: shift an x; y-first: shift a y
+                cs[rng.choice([0, 3])][axis] += dy(rng, 1, 9) / 4
+                del ops[-4:]
+                ops.append(Op("m", list(cs[0])))
+                for c in cs[1:]:
+                    ops.append(Op("l", list(c)))
+                ops.append(Op("h") if rng.random() < 0.5 else Op("l", list(cs[0])))
+                return
             if how == "open5":   # a fourth segment that does NOT return to the start: not a closed quadrilateral
                 ops.append(Op("l", [corners[0][0] + dy(rng, 1, 9), corners[0][1] + rng.choice([0, 0, dy(rng, 1, 9)])]))
                 return
